@@ -489,18 +489,24 @@ pub fn check_priority(files: &[(u8, bool)], prefix_order: &[u8], l: &mut Local) 
 // ------------------------------------------------------------------------------------------
 // recursion (worker subprocess)
 
-pub fn recursion_cases() -> Vec<(String, Vec<(String, String)>, i64, &'static str)> {
-    // (label, templates, n, expectation class) — class: "ok" must render exact text, "err" must fail, "either"
-    let mut v = vec![];
-    let shapes: Vec<(&str, Vec<(String, String)>)> = vec![
+pub fn recursion_shapes() -> Vec<(&'static str, Vec<(String, String)>)> {
+    vec![
         ("direct", vec![("lib.txt".into(), "{% component R(n) %}{{ n }},{% if n > 0 %}{{ <R n={ n - 1 } /> }}{% endif %}{% endcomponent R %}".into()), ("main.txt".into(), "{{ <R n={ n } /> }}".into())]),
         ("mutual", vec![("lib.txt".into(), "{% component A(n) %}{{ n }},{% if n > 0 %}{{ <B n={ n - 1 } /> }}{% endif %}{% endcomponent A %}{% component B(n) %}{{ n }},{% if n > 0 %}{{ <A n={ n - 1 } /> }}{% endif %}{% endcomponent B %}".into()), ("main.txt".into(), "{{ <A n={ n } /> }}".into())]),
         ("through-include", vec![("lib.txt".into(), "{% component R(n) %}{{ n }},{% if n > 0 %}{% include \"step.txt\" %}{% endif %}{% endcomponent R %}".into()), ("step.txt".into(), "{{ <R n={ n - 1 } /> }}".into()), ("main.txt".into(), "{{ <R n={ n } /> }}".into())]),
         ("through-body", vec![("lib.txt".into(), "{% component W() %}{{ body }}{% endcomponent W %}{% component R(n) %}{{ n }},{% if n > 0 %}{% <W> %}{{ <R n={ n - 1 } /> }}{% </W> %}{% endif %}{% endcomponent R %}".into()), ("main.txt".into(), "{{ <R n={ n } /> }}".into())]),
         ("in-loop-and-capture", vec![("lib.txt".into(), "{% component R(n) %}{{ n }},{% if n > 0 %}{% for q in [1] %}{% set c %}{{ <R n={ n - 1 } /> }}{% endset %}{{ c }}{% endfor %}{% endif %}{% endcomponent R %}".into()), ("main.txt".into(), "{{ <R n={ n } /> }}".into())]),
         ("mutual-through-two-includes", vec![("lib.txt".into(), "{% component A(n) %}{{ n }},{% if n > 0 %}{% include \"toB.txt\" %}{% endif %}{% endcomponent A %}{% component B(n) %}{{ n }},{% if n > 0 %}{% include \"toA.txt\" %}{% endif %}{% endcomponent B %}".into()), ("toB.txt".into(), "{% include \"toB2.txt\" %}".into()), ("toB2.txt".into(), "{{ <B n={ n - 1 } /> }}".into()), ("toA.txt".into(), "{{ <A n={ n - 1 } /> }}".into()), ("main.txt".into(), "{{ <A n={ n } /> }}".into())]),
-    ];
-    for (label, tpls) in shapes {
+        ("through-include-in-capture", vec![("lib.txt".into(), "{% component R(n) %}{{ n }},{% if n > 0 %}{% filter trim %}{% include \"step.txt\" %}{% endfilter %}{% endif %}{% endcomponent R %}".into()), ("step.txt".into(), "{% set c %}{{ <R n={ n - 1 } /> }}{% endset %}{{ c }}".into()), ("main.txt".into(), "{{ <R n={ n } /> }}".into())]),
+        ("as-argument-default-body", vec![("lib.txt".into(), "{% component P(v) %}{{ v }}{% endcomponent P %}{% component R(n) %}{{ n }},{% if n > 0 %}{{ <P v={ <R n={ n - 1 } /> } /> }}{% endif %}{% endcomponent R %}".into()), ("main.txt".into(), "{{ <R n={ n } /> }}".into())]),
+        ("from-included-main", vec![("lib.txt".into(), "{% component R(n) %}{{ n }},{% if n > 0 %}{{ <R n={ n - 1 } /> }}{% endif %}{% endcomponent R %}".into()), ("inner.txt".into(), "{{ <R n={ n } /> }}".into()), ("main.txt".into(), "{% include \"inner.txt\" %}".into())]),
+        ("from-block-of-parent", vec![("lib.txt".into(), "{% component R(n) %}{{ n }},{% if n > 0 %}{{ <R n={ n - 1 } /> }}{% endif %}{% endcomponent R %}".into()), ("base.txt".into(), "{% block b %}{{ <R n={ n } /> }}{% endblock %}".into()), ("main.txt".into(), "{% extends \"base.txt\" %}{% block b %}{{ super() }}{% endblock %}".into())]),
+    ]
+}
+pub fn recursion_cases() -> Vec<(String, Vec<(String, String)>, i64, &'static str)> {
+    // (label, templates, n, expectation class) — class: "ok" must render exact text, "err" must fail, "either"
+    let mut v = vec![];
+    for (label, tpls) in recursion_shapes() {
         for (n, class) in [(0i64, "ok"), (1, "ok"), (5, "ok"), (14, "ok"), (17, "either"), (19, "either"), (20, "either"), (25, "either"), (40, "either"), (100, "either"), (300, "err"), (100_000, "err")] {
             v.push((format!("{label} n={n}"), tpls.clone(), n, class));
         }
@@ -517,7 +523,52 @@ pub fn recursion_cases() -> Vec<(String, Vec<(String, String)>, i64, &'static st
     v
 }
 
+/// "one limit": the deepest nesting of calls that renders must not depend on what lies between two nested calls
+fn limit_worker(w: &WorkerArgs) -> i32 {
+    let shapes = recursion_shapes();
+    let Some((label, tpls)) = shapes.get(w.shard as usize).cloned() else { return 2 };
+    let h = std::thread::Builder::new().stack_size(8 << 20).spawn(move || {
+        let mut l = Local::new();
+        let mut fails = vec![];
+        let mut t = tera::Tera::new();
+        if let Err(e) = t.add_raw_templates(tpls.clone()) {
+            fails.push(Fail::new("C05/valid-set-rejected", format!("{label}: {e}"), json!({"kind": "recursion-limit", "label": label})));
+            return (l, fails);
+        }
+        let mut deepest_ok: i64 = -1;
+        let mut first_err: Option<i64> = None;
+        for n in 0..=70i64 {
+            let mut c = tera::Context::new();
+            c.insert("n", &n);
+            let got = run_engine(|| t.render("main.txt", &c));
+            l.eval();
+            let exp_text: String = (0..=n).rev().map(|i| format!("{i},")).collect();
+            match got {
+                R::Ok(s) if s.trim() == exp_text && first_err.is_none() => deepest_ok = n,
+                R::Err(_) => first_err = first_err.or(Some(n)),
+                other => {
+                    fails.push(Fail::new(if matches!(other, R::Panic(_)) { "C05/panic" } else { "C05/recursion-wrong-result" }, format!("{label} n={n}: expected {exp_text:?} or, past the limit, an error at every greater depth (first error at {first_err:?}); engine gave {}", other.json().to_string().chars().take(300).collect::<String>()), json!({"kind": "recursion-limit", "label": label, "templates": tpls, "n": n})));
+                    break;
+                }
+            }
+        }
+        l.label(&format!("limit:{label}={deepest_ok}"));
+        l.label("recursion:limit-scan");
+        l.nontrivial(hash_str(&format!("limit {label}")));
+        (l, fails)
+    });
+    let (l, fails) = match h.unwrap().join() {
+        Ok(x) => x,
+        Err(_) => return 101,
+    };
+    write_worker_result(&w.out, &l, &fails);
+    0
+}
+
 pub fn worker(w: &WorkerArgs) -> i32 {
+    if w.family == "recursion-limit" {
+        return limit_worker(w);
+    }
     if w.family != "recursion" {
         return 2;
     }
@@ -564,7 +615,7 @@ pub fn worker(w: &WorkerArgs) -> i32 {
 }
 
 pub fn run(rep: &Report) {
-    rep.set_rule("sets: 1-4 generated component definitions (typed / untyped parameters, literal defaults of every kind incl. none, inferred types, ...rest, dotted names, spread over three files) whose bodies print every parameter, rest, body, observation points over the caller's whole name pool, and call earlier components or include a template; a main template and an included template calling them inline, with a body, in a loop and in a capture, with named, shorthand and spread attributes whose values are literals of every kind or caller variables (right and wrong for the declared or inferred type, missing, extra); caller render context, global context, assignments and loop variables share names with the parameters. Oracle: reference binder + interpreter on a fresh scope (exact text or error); render_component through the API with and without body, both autoescape flags, against the same binder. Priority family: component C defined in files under no prefix / two fallback prefixes / an unrelated directory, all orders of the prefix list: highest-priority definition wins, equal priority is rejected. Recursion family (worker subprocess, 8 MiB stack): direct, mutual, through an include, through a body, in a loop and capture, with depth 0..100000 and unbounded: depth <= 14 renders the exact text, >= 300 or unbounded returns an error, in between either (the limit itself is not documented). Non-trivial: a render that reaches at least one component call; distinct by (sources, context).");
+    rep.set_rule("sets: 1-4 generated component definitions (typed / untyped parameters, literal defaults of every kind incl. none, inferred types, ...rest, dotted names, spread over three files) whose bodies print every parameter, rest, body, observation points over the caller's whole name pool, and call earlier components or include a template; a main template and an included template calling them inline, with a body, in a loop and in a capture, with named, shorthand and spread attributes whose values are literals of every kind or caller variables (right and wrong for the declared or inferred type, missing, extra); caller render context, global context, assignments and loop variables share names with the parameters. Oracle: reference binder + interpreter on a fresh scope (exact text or error); render_component through the API with and without body, both autoescape flags, against the same binder. Priority family: component C defined in files under no prefix / two fallback prefixes / an unrelated directory, all orders of the prefix list: highest-priority definition wins, equal priority is rejected. Recursion family (worker subprocess, 8 MiB stack): direct, mutual, through an include, through a body, in a loop and capture, with depth 0..100000 and unbounded: depth <= 14 renders the exact text, >= 300 or unbounded returns an error, in between either (the limit itself is not documented). One-limit relation: for ten shapes (direct, mutual, through one and two includes, through a body, in a loop and capture, through an include inside a capture, as an attribute value, entered from an included template, entered from a parent's block through super()) the deepest nesting n in 0..70 that renders is scanned, success must be downward closed, and the boundary must be the same as for direct recursion. Non-trivial: a render that reaches at least one component call; distinct by (sources, context).");
     rep.assume("not specified, therefore discarded: an attribute whose value is undefined, an explicit `body` attribute, spread of a map with non-string keys; defaults are non-negative literals (the lexer has no negative literals)");
     for k in rep.known.clone() {
         if let Some(Err(f)) = replay(rep, &k.repro) {
@@ -586,7 +637,29 @@ pub fn run(rep: &Report) {
         }
         rep.fail(Fail::new("C05/recursion-not-bounded", format!("{label}: worker {desc}"), json!({"kind": "recursion", "label": label, "templates": tpls, "n": n})));
     });
-    for (lab, min) in [("render:ok", 50_000), ("render:error", 50_000), ("api:render_component", 400_000), ("api:render_component-ok", 80_000), ("sig:default", 80_000), ("sig:typed", 80_000), ("sig:inferred-type", 40_000), ("sig:rest", 80_000), ("priority:resolved-among-several", 2_000), ("priority:duplicate-rejected", 2_000), ("recursion:ok", 20), ("recursion:err", 14)] {
+    let shapes = recursion_shapes();
+    let shapes_ref = &shapes;
+    run_in_workers(rep, "recursion-limit", shapes.len() as u64, 120, move |rep: &Report, shard: u64, desc: &str, _c, timed_out: bool| {
+        let (label, tpls) = &shapes_ref[shard as usize];
+        if timed_out {
+            rep.inconclusive(&format!("recursion limit scan {label} timed out"));
+            return;
+        }
+        rep.fail(Fail::new("C05/recursion-not-bounded", format!("limit scan {label}: worker {desc}"), json!({"kind": "recursion-limit", "label": label, "templates": tpls})));
+    });
+    {
+        let limits: Vec<(String, i64)> = rep.labels.lock().unwrap().keys().filter_map(|k| k.strip_prefix("limit:")).filter_map(|k| k.rsplit_once('=')).filter_map(|(a, b)| Some((a.to_string(), b.parse().ok()?))).collect();
+        rep.extra("deepest_nesting_rendered_per_shape", json!(limits));
+        if let Some((_, base)) = limits.iter().find(|(a, _)| a == "direct") {
+            for (shape, lim) in &limits {
+                if lim != base || *lim < 14 || *lim >= 70 {
+                    let tpls = shapes.iter().find(|s| s.0 == shape).map(|s| s.1.clone());
+                    rep.fail(Fail::new("C05/recursion-limit-depends-on-call-path", format!("the deepest nesting of component calls that renders is {base} for direct recursion but {lim} for shape `{shape}` (one nesting limit must apply whatever lies between two nested calls; 70 = no limit reached)"), json!({"kind": "recursion-limit", "label": shape, "templates": tpls, "direct": base, "observed": lim})));
+                }
+            }
+        }
+    }
+    for (lab, min) in [("recursion:limit-scan", 10), ("render:ok", 50_000), ("render:error", 50_000), ("api:render_component", 400_000), ("api:render_component-ok", 80_000), ("sig:default", 80_000), ("sig:typed", 80_000), ("sig:inferred-type", 40_000), ("sig:rest", 80_000), ("priority:resolved-among-several", 2_000), ("priority:duplicate-rejected", 2_000), ("recursion:ok", 20), ("recursion:err", 14)] {
         rep.floor(lab, min);
     }
 }
@@ -616,6 +689,46 @@ pub fn replay(_rep: &Report, case: &serde_json::Value) -> Option<Check> {
                 Err(_) => "Err(())".to_string(),
             };
             Some(if shown == exp { Ok(()) } else { Err(Fail::new("C05/replay", format!("expected {exp}, engine gave {shown}"), case.clone())) })
+        }
+        "recursion" | "recursion-limit" => {
+            // the replay runs in its own process on the reference stack; a stack overflow kills it and is reported by the parent
+            let sources: Vec<(String, String)> = case.get("templates")?.as_array()?.iter().map(|p| Some((p.get(0)?.as_str()?.to_string(), p.get(1)?.as_str()?.to_string()))).collect::<Option<_>>()?;
+            let scan = |tpls: Vec<(String, String)>| -> Result<i64, String> {
+                let mut t = tera::Tera::new();
+                t.add_raw_templates(tpls).map_err(|e| e.to_string())?;
+                let mut deepest = -1;
+                for n in 0..=70i64 {
+                    let mut c = tera::Context::new();
+                    c.insert("n", &n);
+                    match t.render("main.txt", &c) {
+                        Ok(_) if deepest == n - 1 => deepest = n,
+                        Ok(_) => return Err(format!("n={n} renders although n={} did not", deepest + 1)),
+                        Err(_) => {}
+                    }
+                }
+                Ok(deepest)
+            };
+            if let Some(n) = case.get("n").and_then(|x| x.as_i64()) {
+                let mut t = tera::Tera::new();
+                if let Err(e) = t.add_raw_templates(sources.clone()) {
+                    return Some(Err(Fail::new("C05/valid-set-rejected", e.to_string(), case.clone())));
+                }
+                let mut c = tera::Context::new();
+                c.insert("n", &n);
+                let unbounded = case.get("label").and_then(|x| x.as_str()).map(|l| l.starts_with("unbounded")).unwrap_or(false);
+                let exp_text: String = (0..=n).rev().map(|i| format!("{i},")).collect();
+                return Some(match t.render("main.txt", &c) {
+                    Ok(_) if unbounded || n >= 300 => Err(Fail::new("C05/recursion-not-bounded", format!("n={n} rendered"), case.clone())),
+                    Ok(s) if s.trim() != exp_text => Err(Fail::new("C05/recursion-wrong-result", format!("n={n}: {s:?}"), case.clone())),
+                    Err(e) if n <= 14 && !unbounded => Err(Fail::new("C05/recursion-wrong-result", format!("n={n}: {e}"), case.clone())),
+                    _ => Ok(()),
+                });
+            }
+            let direct = recursion_shapes().into_iter().find(|s| s.0 == "direct")?.1;
+            Some(match (scan(direct), scan(sources)) {
+                (Ok(a), Ok(b)) if a == b => Ok(()),
+                (a, b) => Err(Fail::new("C05/recursion-limit-depends-on-call-path", format!("deepest nesting rendered: direct recursion {a:?}, this shape {b:?}"), case.clone())),
+            })
         }
         _ => None,
     }
